@@ -1,9 +1,20 @@
 #!/bin/sh
 # Build the framework once after a fresh restore, offline: Lean library + drivers, Go harness binaries.
-set -e
+# Every check rebuilds what it needs itself; this only warms the caches, so a target that does not build
+# is reported and does not stop the setup (the owning check will report it properly).
 export GOFLAGS=-mod=mod GOPROXY=off
-cd /verif/lean && lake build Scalibr $(grep -h '^name = "drv_' lakefile.toml | sed 's/name = "\(.*\)"/\1/')
+cd /verif/lean || exit 1
+lake build Scalibr.Base.Sort Scalibr.Base.Lex Scalibr.Base.Wire || exit 1
+for m in $(ls Scalibr/Properties/*.lean | sed 's#/#.#g; s#\.lean$##'); do
+  lake build "$m" > /tmp/setup_lake.log 2>&1 || { echo "WARN: $m did not build"; tail -5 /tmp/setup_lake.log; }
+done
+for e in $(grep -h '^name = "drv_' lakefile.toml | sed 's/name = "\(.*\)"/\1/'); do
+  lake build "$e" > /tmp/setup_lake.log 2>&1 || { echo "WARN: $e did not build"; tail -5 /tmp/setup_lake.log; }
+done
+rm -f /tmp/setup_lake.log
 cd /verif && python3 tools/mkoverlay.py
 cp /repo/go.sum /verif/harness/go.sum
 cd /verif/harness && mkdir -p bin && for d in cmd/*/; do c=$(basename $d); go build -tags verif -overlay overlay/overlay.json -o bin/$c ./cmd/$c || echo "WARN: $c did not build"; done
+if [ -d /verif/translator ]; then cd /verif/translator && cp /repo/go.sum go.sum 2>/dev/null; mkdir -p bin; for d in cmd/*/; do c=$(basename $d); go build -o bin/$c ./cmd/$c || echo "WARN: translator $c did not build"; done; fi
 echo setup done
+exit 0
